@@ -448,11 +448,14 @@ theorem importEntry_len (m : RawModule) : KeepsLength m.length (importEntry m) :
 
 theorem functionNamesSubsection_len (m : RawModule) : KeepsLength m.length (functionNamesSubsection m) := by
   unfold functionNamesSubsection
-  refine ok_bind fun n => ok_ite (fun _ => ok_undefined _) fun _ => ok_bind fun names => ?_
+  refine ok_bind fun n => ?_
   split
-  · exact ok_pure rfl
-  · exact ok_fail _
   · exact ok_undefined _
+  · refine ok_bind fun names => ?_
+    split
+    · exact ok_pure rfl
+    · exact ok_fail _
+    · exact ok_undefined _
 
 theorem nameSectionLoop_len (endRem : Int) : ∀ fuel (m : RawModule), KeepsLength m.length (nameSectionLoop endRem fuel m) := by
   intro fuel
